@@ -3,7 +3,8 @@ scratch copy of the repository (cp -r /repo /tmp/c06gen-repo first) and run thro
 `BIOM_REPO=/tmp/c06gen-repo VERIF_OUT=/tmp/c06gen-out ./check C06`; rows go to /tmp/c06gen/rows.json.  Afterwards run
 tools/regen_ord.sh and ./check C06 against /repo again."""
 import os, re, shutil, subprocess, sys, json, glob
-REPO = '/tmp/c06gen-repo'
+REPO = os.environ.get('C06GEN_REPO', '/tmp/c06gen-repo')
+TAG = os.environ.get('C06GEN_TAG', 'c06gen')
 EDITS = [
  ('so-rows-for-cols', 'semantic', "sort_order, sample branch: the matrix is fancy-indexed on its rows",
   "mat = self.matrix_data[:, fancy]", "mat = self.matrix_data[fancy, :]"),
@@ -38,7 +39,7 @@ EDITS = [
 ]
 names = sys.argv[1:]
 rows = []
-os.makedirs('/tmp/c06gen', exist_ok=True)
+os.makedirs('/tmp/%s' % TAG, exist_ok=True)
 for name, group, what, old, new in EDITS:
     if names and name not in names:
         continue
@@ -52,21 +53,21 @@ for name, group, what, old, new in EDITS:
         assert s.count(old) == 1, (name, s.count(old))
         s2 = s.replace(old, new)
     open(REPO + '/biom/table.py', 'w').write(s2)
-    env = dict(os.environ, BIOM_REPO=REPO, VERIF_OUT='/tmp/c06gen-out')
-    shutil.rmtree('/tmp/c06gen-out/replays', ignore_errors=True)
+    env = dict(os.environ, BIOM_REPO=REPO, VERIF_OUT='/tmp/%s-out' % TAG + '')
+    shutil.rmtree('/tmp/%s-out' % TAG + '/replays', ignore_errors=True)
     p = subprocess.run(['./check', 'C06'], cwd='/verif', env=env, capture_output=True, text=True)
     out = p.stdout + p.stderr
-    open('/tmp/c06gen/%s.log' % name, 'w').write(out)
+    open('/tmp/%s/' % TAG + '%s.log' % name, 'w').write(out)
     refused = [l for l in out.split('\n') if 'REFUSED' in l]
     try:
-        ev = json.load(open('/tmp/c06gen-out/evidence/C06.json'))
+        ev = json.load(open('/tmp/%s-out' % TAG + '/evidence/C06.json'))
         refused += [l for l in ev['coverage']['trusted_base'] if 'REFUSED' in l]
     except Exception:
         pass
     diff = subprocess.run(['git', 'diff', '--quiet', '--', 'coq/Gen/ReorderGen.v'], cwd='/verif').returncode
     broke = ''
     rep = {}
-    for f in glob.glob('/tmp/c06gen-out/replays/C06-*.json'):
+    for f in glob.glob('/tmp/%s-out' % TAG + '/replays/C06-*.json'):
         try:
             rep = json.load(open(f))
         except Exception:
@@ -87,8 +88,8 @@ for name, group, what, old, new in EDITS:
                 break
     verdict = [l for l in out.split('\n') if l.startswith('VIOLATION') or 'quick:' in l]
     fail = json.dumps([rep.get('case', ''), rep.get('impl', ''), rep.get('oracle', '')], default=str)[:400]
-    rows.append((name, group, what, 'REFUSES' if refused else 'accepts', 'differs' if diff else 'same text',
+    rows.append((name, group, what, 'REFUSES' if refused else 'accepts', 'not written' if refused else ('differs' if diff else 'same text'),
                  broke or (refused[0][:200] if refused else 'all proofs check'), ' | '.join(verdict)[:300], p.returncode, fail))
     print(rows[-1], flush=True)
 shutil.copy('/repo/biom/table.py', REPO + '/biom/table.py')
-json.dump(rows, open('/tmp/c06gen/rows.json', 'w'), indent=1)
+json.dump(rows, open('/tmp/%s/' % TAG + 'rows.json', 'w'), indent=1)
